@@ -39,12 +39,25 @@ def handle : List String → Verdict
           some s!"{name}: development-mode render differs from the normal render: {Bytes.toHex (dev.take 200)}",
         nontrivial := true, tags := ["dev:" ++ name], sig := "dev;" ++ name }
     | _, _ => .badOp
+  | ["devlit", lineH, outS] =>
+    match hexField lineH with
+    | some line =>
+      let want := (unquote line).map Bytes.toHex |>.getD "ERR"
+      -- a line with a raw LF never reaches here (the file is split on LF); the model decides what the line denotes
+      { predfail := if want == outS || (want == "" && outS == "") then none else
+          some s!"development-mode WriteString returned {outS.take 120} for text-file line {String.ofList (line.map fun (c : UInt8) => Char.ofNat c.toNat)}; the literal denotes {want.take 120}",
+        nontrivial := line.contains 92, tags := ["devlit"], sig := "devlit" }
+    | none => .badOp
   | ["pair", changedS, _src1, _src2, code1H, code2H] =>
     match hexField code1H, hexField code2H with
     | some c1, some c2 =>
       let changed := changedS == "true"
-      let (_, s1) := C0809.litsAndSkeleton c1
-      let (_, s2) := C0809.litsAndSkeleton c2
+      -- the code with the CONTENTS of each static literal blanked; the literal-writing statement itself, its index and
+      -- its place among the other statements are part of the compiled program and must agree
+      let mask := fun (c : Bytes) => (splitLF c).map fun l =>
+        if Bytes.hasInfix C0809.wsMarker l then l.takeWhile (· != 34) else l
+      let s1 := mask c1
+      let s2 := mask c2
       let sameSkeleton := s1 == s2
       { predfail := if changed || sameSkeleton then none else
           some s!"HasChanged says no recompilation is needed, but the generated code differs outside its literals: {C0809.firstDiff (joinLF s1) (joinLF s2)}",
